@@ -3,7 +3,7 @@
 # check of the property it breaks (or the one named in meta.json "also_checked_with"), on a scratch worktree of /repo's HEAD
 J=${1:-3}
 ls -d /verif/seeded/*/ | while read d; do
-  id=$(basename "$d"); prop=$(python3 -c "import json;m=json.load(open('$d/meta.json'));print(m.get('checked_with', m['breaks_property']))")
+  id=$(basename "$d"); prop=$(python3 -c "import json;m=json.load(open('$d/meta.json'));print(m.get('checked_with', m['breaks_property']) + (' EXPECT-MISS' if m.get('not_detected') else ''))")
   echo "$id $prop"
 done > /tmp/all_seeds.list
 cat /tmp/all_seeds.list | xargs -P "$J" -L 1 sh -c '
